@@ -240,6 +240,16 @@ func (c *FnCtx) doCallInner(st *State, v ssa.Value, cc *ssa.CallCommon, ins ssa.
 		recv := c.val(st, cc.Value)
 		c.safety(st, ins, "nil-invoke", not(eq(app("itag", recv.S), "0")))
 		m := cc.Method
+		{
+			var dargs []*Val
+			for _, a := range cc.Args {
+				dargs = append(dargs, c.val(st, a))
+			}
+			if r, ok := c.dispatchInline(st, recv, m.Name(), dargs); ok {
+				c.setResult(v, c.asResult(r, resT))
+				return
+			}
+		}
 		if m.Pkg() != nil && stablePkgs[m.Pkg().Path()] && !observersDenied[m.Name()] {
 			args := []*Val{recv}
 			for _, a := range cc.Args {
@@ -265,6 +275,10 @@ func (c *FnCtx) doCallInner(st *State, v ssa.Value, cc *ssa.CallCommon, ins ssa.
 	}
 	if sp := c.specOf(callee); sp != nil && callee != nil && (len(sp.requires)+len(sp.ensures) > 0 || sp.hasModifies || sp.pure) {
 		c.applyContract(st, v, callee, sp, args, ins)
+		return
+	}
+	if r, ok := c.inlineSimple(st, callee, args); ok {
+		c.setResult(v, c.asResult(r, resT))
 		return
 	}
 	if isStablePkgFunc(callee) && !observersDenied[callee.Name()] && callee.Object() != nil {
@@ -475,7 +489,24 @@ func (c *FnCtx) applyContract(st *State, v ssa.Value, callee *ssa.Function, sp *
 	}
 	env.result = resVals
 	env.st = st
-	for _, e := range sp.ensures {
+	// kinds/slots clauses of the callee expand to ordinary ensures
+	if !sp.expandedDone {
+		sp.expandedDone = true
+		for _, sc := range sp.slots {
+			if sc.instance {
+				continue
+			}
+			tmp := newFnCtx(c.L, c.u, callee, sp, c.specs)
+			cls, err := tmp.expandSlots(sc)
+			if err != nil {
+				c.unsupported("contract of %s: %v", callee.Name(), err)
+				continue
+			}
+			sp.expanded = append(sp.expanded, cls...)
+		}
+	}
+	allEns := append(append([]*clause{}, sp.ensures...), sp.expanded...)
+	for _, e := range allEns {
 		if e.cover {
 			continue
 		}
